@@ -145,6 +145,9 @@ package soyhtml
 //@     invariant breaks >= 0 && (isnil(output) == (breaks == 0))
 
 // ---------------------------------------------------------------------------
+//@ pred isnum(v data.Value) = typeis(v, data.Int) || typeis(v, data.Float)
+//@ pred numval(v data.Value) = ite(typeis(v, data.Int), float64(unbox(v, data.Int)), unbox(v, data.Float))
+
 // C12: every write issued by the interpreter has its error checked, and a
 // failed write ends in errorf (which never returns), so no function in the
 // render closure returns normally after one of its own writes failed and none
@@ -153,6 +156,7 @@ package soyhtml
 //@   like stateMethod
 //@   props C12 C08 C09
 //@   nosafety
+//@   abstractfloats
 //@   modifies *
 //@   ghost werr bool = false
 //@   at call io.Writer.Write#* assert[no-write-after-failure] !werr
@@ -160,6 +164,48 @@ package soyhtml
 //@   at call io.WriteString#* assert[no-write-after-failure] !werr
 //@   at call io.WriteString#* after set werr = werr || res1 != nil
 //@   ensures[write-failure-surfaces] !werr
+//@   ghost a1 data.Value = nil
+//@   ghost a2 data.Value = nil
+//@   ghost d1 data.Value = nil
+//@   ghost d2 data.Value = nil
+//@   ghost e1 data.Value = nil
+//@   ghost e2 data.Value = nil
+//@   ghost nevals int = 0
+//@   ghost t1 bool = false
+//@   ghost t2 bool = false
+//@   at call (*state).eval2def#* after set a1 = res0
+//@   at call (*state).eval2def#* after set a2 = res1
+//@   at call (*state).evaldef#* after set d1 = d2
+//@   at call (*state).evaldef#* after set d2 = res
+//@   at call (*state).eval#* after set e1 = e2
+//@   at call (*state).eval#* after set e2 = res
+//@   at call (*state).eval#* after set nevals = nevals + 1
+//@   at call data.Value.Truthy#* after set t1 = t2
+//@   at call data.Value.Truthy#* after set t2 = res
+//@   at call store#10 assert[int-literal;C01] typeis(val, data.Int) && unbox(val, data.Int) == unbox(node, *ast.IntNode).Value
+//@   at call store#11 assert[float-literal;C01] typeis(val, data.Float) && same(unbox(val, data.Float), unbox(node, *ast.FloatNode).Value)
+//@   at call store#12 assert[bool-literal;C01] typeis(val, data.Bool) && unbox(val, data.Bool) == unbox(node, *ast.BoolNode).True
+//@   at call store#19 assert[negate-int;C01] typeis(d2, data.Int) && typeis(val, data.Int) && unbox(val, data.Int) == -unbox(d2, data.Int)
+//@   at call store#20 assert[negate-float;C01] typeis(d2, data.Float) && typeis(val, data.Float) && same(unbox(val, data.Float), -unbox(d2, data.Float))
+//@   at call store#24 assert[add-float;C01] !(typeis(a1, data.Int) && typeis(a2, data.Int)) && isnum(a1) && isnum(a2) && typeis(val, data.Float) && same(unbox(val, data.Float), numval(a1) + numval(a2))
+//@   at call store#25 assert[sub-int;C01] typeis(a1, data.Int) && typeis(a2, data.Int) && typeis(val, data.Int) && unbox(val, data.Int) == unbox(a1, data.Int) - unbox(a2, data.Int)
+//@   at call store#26 assert[sub-float;C01] !(typeis(a1, data.Int) && typeis(a2, data.Int)) && isnum(a1) && isnum(a2) && typeis(val, data.Float) && same(unbox(val, data.Float), numval(a1) - numval(a2))
+//@   at call store#27 assert[div-is-float;C01] isnum(a1) && isnum(a2) && typeis(val, data.Float) && same(unbox(val, data.Float), numval(a1) / numval(a2))
+//@   at call store#28 assert[mul-int;C01] typeis(a1, data.Int) && typeis(a2, data.Int) && typeis(val, data.Int) && unbox(val, data.Int) == unbox(a1, data.Int) * unbox(a2, data.Int)
+//@   at call store#29 assert[mul-float;C01] !(typeis(a1, data.Int) && typeis(a2, data.Int)) && isnum(a1) && isnum(a2) && typeis(val, data.Float) && same(unbox(val, data.Float), numval(a1) * numval(a2))
+//@   at call store#33 assert[less-than;C01] isnum(d1) && isnum(d2) && typeis(val, data.Bool) && unbox(val, data.Bool) == (numval(d1) < numval(d2))
+//@   at call store#34 assert[less-equal;C01] isnum(d1) && isnum(d2) && typeis(val, data.Bool) && unbox(val, data.Bool) == (numval(d1) <= numval(d2))
+//@   at call store#35 assert[greater-than;C01] isnum(d1) && isnum(d2) && typeis(val, data.Bool) && unbox(val, data.Bool) == (numval(d1) > numval(d2))
+//@   at call store#36 assert[greater-equal;C01] isnum(d1) && isnum(d2) && typeis(val, data.Bool) && unbox(val, data.Bool) == (numval(d1) >= numval(d2))
+//@   at call store#40 assert[elvis-keeps-non-null;C01] nevals == 1 && !typeis(e2, data.Null) && !typeis(e2, data.Undefined) && val == e2
+//@   at call store#41 assert[elvis-falls-back;C01] nevals == 2 && (typeis(e1, data.Null) || typeis(e1, data.Undefined)) && val == e2
+//@   ensures[add-int;C01] typeis(node, *ast.AddNode) && typeis(a1, data.Int) && typeis(a2, data.Int) ==> typeis(s.val, data.Int) && unbox(s.val, data.Int) == unbox(a1, data.Int) + unbox(a2, data.Int)
+//@   ensures[add-string;C01] typeis(node, *ast.AddNode) && (typeis(a1, data.String) || typeis(a2, data.String)) ==> typeis(s.val, data.String)
+//@   ensures[mod-int;C01] typeis(node, *ast.ModNode) ==> typeis(a1, data.Int) && typeis(a2, data.Int) && typeis(s.val, data.Int) && unbox(s.val, data.Int) == unbox(a1, data.Int) % unbox(a2, data.Int)
+//@   ensures[not;C01] typeis(node, *ast.NotNode) ==> nevals == 1 && typeis(s.val, data.Bool) && unbox(s.val, data.Bool) == !t2
+//@   ensures[and-short-circuit;C01] typeis(node, *ast.AndNode) ==> typeis(s.val, data.Bool) && ((nevals == 1 && !t2 && !unbox(s.val, data.Bool)) || (nevals == 2 && t1 && unbox(s.val, data.Bool) == t2))
+//@   ensures[or-short-circuit;C01] typeis(node, *ast.OrNode) ==> typeis(s.val, data.Bool) && ((nevals == 1 && t2 && unbox(s.val, data.Bool)) || (nevals == 2 && !t1 && unbox(s.val, data.Bool) == t2))
+//@   ensures[ternary;C01] typeis(node, *ast.TernNode) ==> nevals == 2 && s.val == e2
 //@   loop 0
 //@     noterm
 //@   loop 1
